@@ -161,10 +161,12 @@ func runReplay(o *checkOpts, src, pkgDir, test, hints string) []map[string]inter
 			}
 		}
 	}
-	if len(fails) == 0 && strings.Contains(string(out), "panic:") {
+	finished := strings.Contains(string(out), "--- PASS: "+test) || strings.Contains(string(out), "--- FAIL: "+test)
+	if len(fails) == 0 && !finished {
+		// the test binary died (a panic escaped, a timeout) before the test function returned
 		txt := string(out)
 		if len(txt) > 1500 {
-			txt = txt[:1500]
+			txt = txt[len(txt)-1500:]
 		}
 		fails = append(fails, map[string]interface{}{"call": "harness aborted", "output": txt})
 	}
